@@ -54,6 +54,31 @@ def _oracle(chk, r, a, head, rows):
                           dict(cid, kind='net'))
 
 
+def _calculator_trees(chk, n):
+    """plinio/graph/features_calculation.py in isolation: random trees of the real calculator classes against the
+    Lean definitions the theorems `calculator_features_eq_alive_mask` / `calculator_mask_length` speak about."""
+    from .. import featcalc
+    jobs = [featcalc.draw_line(chk.rng.randint(0, 1 << 30)) for _ in range(n)]
+    real = common.pmap(featcalc.run_real, jobs)
+    model = chk.driver('FeatCalc', [j[0] for j in jobs])
+    for o, ans in zip(real, model):
+        case = {'kind': 'calculator-tree', 'line': o['line'], 'shared': o['shared']}
+        depth = o['line'].count('f ') + o['line'].count('k ')
+        chk.count(('fc', o['line'], o['shared']), nontrivial=depth >= 2, bucket='calculator-tree:depth%d' % min(depth, 6))
+        if o.get('error'):
+            chk.violation('C09:features-calculator:raises', 'a features-calculator tree raises: ' + o['error'], case)
+            continue
+        chk.corr(case, o['answer'], ans, 'features calculators (count, width, mask) vs the Lean definitions')
+        feat = int(o['answer'].split()[0].split('=')[1])
+        bits = o['answer'].split('mask=')[1]
+        if feat != bits.count('1') or feat != o['structural'] or not o['integral']:
+            chk.violation('C09:features-calculator:count!=alive-mask',
+                          'features = %d, alive entries of features_mask = %d, by the structure (sum across concat, product '
+                          'across flatten) = %d' % (feat, bits.count('1'), o['structural']), case)
+        if not o.get('deepcopy_ok', True):
+            chk.violation('C09:features-calculator:buffers-lost-by-deepcopy', 'buffers of the registered tree differ after deepcopy', case)
+
+
 def run(chk):
     chk.rule = ('random grammar nets (1D causal Conv1d and 2D; conv, depthwise, linear, fused BN, relu, pooling, '
                 'residual add, channel concat of 2..3 tensors incl. the network input, time-axis concat, flatten '
@@ -128,6 +153,7 @@ def run(chk):
                 n_unsup += 1
             _oracle(chk, r, a, head, rows)
     chk.extra['unsupported_cases'] = n_unsup
+    _calculator_trees(chk, 150 if chk.quick else 3000)
     # autoconvert_layers=False: user-placed PIT layers; every conv converted (demanded) and one left plain (K11)
     jobs = [(chk.rng.randint(0, 1 << 30), i % 3 == 0) for i in range(12 if chk.quick else 200)]
     for o in common.pmap(pitauto.auto_off_case, jobs):
@@ -157,6 +183,14 @@ def replay(data):
         o = pitauto.auto_off_case((case['seed'], case['leave_plain']))
         print(o)
         return 1 if (o.get('error') or o.get('pruned_error') or o.get('pruned_diff') is not None) else 0
+    if case.get('kind') == 'calculator-tree':
+        from .. import featcalc
+        o = featcalc.run_real((case['line'], case['shared']))
+        print(o)
+        if o.get('error'):
+            return 1
+        feat = int(o['answer'].split()[0].split('=')[1])
+        return 0 if feat == o['answer'].split('mask=')[1].count('1') == o['structural'] else 1
     spec = {'seed': case['seed'], 'dim': case['dim'], 'opts': case['opts'], 'fold_bn': case['fold_bn'],
             'excl_mode': case['excl_mode'], 'styles': case.get('styles') or ['mixed', 'mixed', 'min'],
             'full_cost': case.get('full_cost'), 'train_mode': case.get('train_mode'),
